@@ -5,12 +5,21 @@
 //	(WIRING MODE FLAVOUR EVT SRC DST (outcome*))
 //	  WIRING   fn   the scripted device is the DoTransitionFunc handed to transitioner.NewTransitioner
 //	           rpc  the REAL executorcmd.NewClient (client.go doTransition) talks gRPC over loopback to a
-//	                fake OCC server that holds the scripted device
+//	                fake OCC server that holds the scripted device (PROTOBUF control transport)
+//	           json the REAL executorcmd.NewClient(…, JsonTransport): client.go doTransition calls through the real
+//	                nopb.OccClient; the device's reply is marshalled and unmarshalled by the real nopb.JsonCodec
+//	                (encoding/json over pb.TransitionReply: zero-valued fields are NOT in the document) into the
+//	                reply object the client handed down; the gRPC hop itself is short-circuited by a client
+//	                interceptor (the JSON client's method names are not servable by grpc-go). The client has
+//	                already carried one FULL reply (ok, EXECUTOR, event, the device's state) before the case
+//	                starts, as a client that has done an earlier transition has.
 //	  MODE     FAIRMQ | DIRECT                      (controlmode → which transitioner)
 //	  FLAVOUR  lenient | strict   strict = the device answers a request whose SrcState is not its own state
 //	                              with a gRPC error, as occ/plugin and occ/occlib do
 //	  EVT SRC DST  the O² transition asked of Commit
-//	  outcome  done | refused | errorState | reqLost | replyLost   one per request the transitioner issues
+//	  outcome  done | refused | errorState | reqLost | replyLost | errorNoState   one per request the transitioner issues
+//	           errorNoState = the device falls into ERROR and answers, but the reply carries no state: ok=false,
+//	           trigger zero (EXECUTOR), state "" — only the event echo is non-zero
 //	(rule OK TRIG SAMEEVT STATEISDST)    one reply shape through the real client.doTransition (acceptance rule)
 //
 // Obs:   (REPORTED ERRKIND ((EVT SRC DST ARGS)*) FINAL)     ERRKIND = nil | rejected | transport | unimplemented
@@ -39,6 +48,7 @@ import (
 	"github.com/AliceO2Group/Control/common/controlmode"
 	"github.com/AliceO2Group/Control/core/controlcommands"
 	"github.com/AliceO2Group/Control/executor/executorcmd"
+	"github.com/AliceO2Group/Control/executor/executorcmd/nopb"
 	"github.com/AliceO2Group/Control/executor/executorcmd/transitioner"
 	"github.com/AliceO2Group/Control/executor/executorcmd/transitioner/fairmq"
 	pb "github.com/AliceO2Group/Control/executor/protos"
@@ -56,7 +66,7 @@ var (
 	o2States  = []string{"STANDBY", "CONFIGURED", "RUNNING", "ERROR", "DONE"}
 	o2Events  = []string{"START", "STOP", "CONFIGURE", "RESET", "EXIT", "GO_ERROR", "RECOVER"}
 	dstOf     = map[string]string{"START": "RUNNING", "STOP": "CONFIGURED", "CONFIGURE": "CONFIGURED", "RESET": "STANDBY", "EXIT": "DONE", "GO_ERROR": "ERROR", "RECOVER": "STANDBY"}
-	outcomes  = []string{"done", "refused", "errorState", "reqLost", "replyLost"}
+	outcomes  = []string{"done", "refused", "errorState", "reqLost", "replyLost", "errorNoState"}
 	fmqStates = []string{fairmq.IDLE, fairmq.INITIALIZING_DEVICE, fairmq.INITIALIZED, fairmq.BOUND, fairmq.DEVICE_READY,
 		fairmq.READY, fairmq.RUNNING, fairmq.ERROR, fairmq.EXITING}
 	fmqEvents = []string{fairmq.EvtINIT_DEVICE, fairmq.EvtCOMPLETE_INIT, fairmq.EvtBIND, fairmq.EvtCONNECT, fairmq.EvtINIT_TASK,
@@ -147,6 +157,9 @@ func (d *device) step(evt, src, dst string, hasArgs bool) answer {
 	case "errorState":
 		d.state = "ERROR"
 		return answer{state: "ERROR", ok: false, trig: pb.StateChangeTrigger_DEVICE_ERROR, evt: evt}
+	case "errorNoState":
+		d.state = "ERROR"
+		return answer{state: "", ok: false, trig: pb.StateChangeTrigger_EXECUTOR, evt: evt}
 	case "reqLost":
 		return answer{lost: true}
 	case "replyLost":
@@ -195,14 +208,51 @@ func errKind(err error) string {
 type rig struct {
 	pb.UnimplementedOccServer
 	mu     sync.Mutex
-	dev    *device  // scripted rows
-	canned *answer  // rule rows
+	dev    *device // scripted rows
+	canned *answer // rule rows
 	srv    *grpc.Server
 	fmq    *executorcmd.RpcClient
 	direct *executorcmd.RpcClient
+	// JSON control transport: the real clients made by NewClient(…, JsonTransport) and the connection whose
+	// unary interceptor applies the real JSON codec between the scripted device and nopb.occClient
+	jfmq    *executorcmd.RpcClient
+	jdirect *executorcmd.RpcClient
+	jconn   *grpc.ClientConn
 }
 
 func (r *rig) Transition(_ context.Context, req *pb.TransitionRequest) (*pb.TransitionReply, error) {
+	return r.handle(req)
+}
+
+// jsonHop is the JSON transport's hop: request and reply cross it as the documents nopb.JsonCodec makes of them,
+// and the reply document is unmarshalled by that codec into the object the calling client passed down.
+func (r *rig) jsonHop(_ context.Context, method string, req, reply interface{}, _ *grpc.ClientConn, _ grpc.UnaryInvoker, _ ...grpc.CallOption) error {
+	if method != "Transition" {
+		return status.Error(codes.Unimplemented, "json hop: unexpected method "+method)
+	}
+	codec := &nopb.JsonCodec{}
+	doc, err := codec.Marshal(req)
+	if err != nil {
+		return status.Error(codes.Internal, "json hop: "+err.Error())
+	}
+	wireReq := new(pb.TransitionRequest)
+	if err := codec.Unmarshal(doc, wireReq); err != nil {
+		return status.Error(codes.Internal, "json hop: "+err.Error())
+	}
+	rep, err := r.handle(wireReq)
+	if err != nil {
+		return err
+	}
+	if doc, err = codec.Marshal(rep); err != nil {
+		return status.Error(codes.Internal, "json hop: "+err.Error())
+	}
+	if err := codec.Unmarshal(doc, reply); err != nil {
+		return status.Error(codes.Internal, "json hop: "+err.Error())
+	}
+	return nil
+}
+
+func (r *rig) handle(req *pb.TransitionRequest) (*pb.TransitionReply, error) {
 	r.mu.Lock()
 	defer r.mu.Unlock()
 	var a answer
@@ -244,9 +294,16 @@ func newRig() (*rig, error) {
 	lg.SetOutput(io.Discard)
 	r.fmq = executorcmd.NewClient(port, controlmode.FAIRMQ, executorcmd.ProtobufTransport, logrus.NewEntry(lg).WithField("id", "t"))
 	r.direct = executorcmd.NewClient(port, controlmode.DIRECT, executorcmd.ProtobufTransport, logrus.NewEntry(lg).WithField("id", "t"))
-	if r.fmq == nil || r.direct == nil {
+	r.jfmq = executorcmd.NewClient(port, controlmode.FAIRMQ, executorcmd.JsonTransport, logrus.NewEntry(lg).WithField("id", "t"))
+	r.jdirect = executorcmd.NewClient(port, controlmode.DIRECT, executorcmd.JsonTransport, logrus.NewEntry(lg).WithField("id", "t"))
+	if r.fmq == nil || r.direct == nil || r.jfmq == nil || r.jdirect == nil {
 		r.srv.Stop()
 		return nil, fmt.Errorf("executorcmd.NewClient could not dial the fake OCC server on port %d", port)
+	}
+	r.jconn, err = grpc.Dial(fmt.Sprintf("127.0.0.1:%d", port), grpc.WithInsecure(), grpc.WithUnaryInterceptor(r.jsonHop))
+	if err != nil {
+		r.srv.Stop()
+		return nil, err
 	}
 	return r, nil
 }
@@ -274,6 +331,9 @@ func teardown() {
 	for _, r := range allRigs {
 		r.fmq.Close()
 		r.direct.Close()
+		r.jfmq.Close()
+		r.jdirect.Close()
+		r.jconn.Close()
 		r.srv.Stop()
 	}
 }
@@ -282,7 +342,7 @@ func teardown() {
 
 type caseIn struct {
 	wiring, mode, flavour, evt, src, dst string
-	script                                []string
+	script                               []string
 }
 
 func parseCase(in *sx.Node) (c caseIn, err error) {
@@ -333,18 +393,35 @@ func run(c caseIn) (obs string, exhausted bool, err error) {
 	case "fn":
 		tr := transitioner.NewTransitioner(cm, d.doTransition)
 		final, cerr = tr.Commit(c.evt, c.src, c.dst, commitArgs)
-	case "rpc":
+	case "rpc", "json":
 		r, err := getRig()
 		if err != nil {
 			return "", false, err
 		}
-		r.mu.Lock()
-		r.dev, r.canned = d, nil
-		r.mu.Unlock()
 		cl := r.direct
 		if cm == controlmode.FAIRMQ {
 			cl = r.fmq
 		}
+		if strings.HasPrefix(c.wiring, "json") {
+			cl = r.jdirect
+			if cm == controlmode.FAIRMQ {
+				cl = r.jfmq
+			}
+			// a JSON client of its own for the case (what NewClient builds, over the connection with the JSON hop),
+			// which has carried one full reply already: an earlier step that went through
+			cl.OccClient = nopb.NewOccClient(r.jconn)
+			r.mu.Lock()
+			r.dev, r.canned = nil, &answer{state: d.state, ok: true, trig: pb.StateChangeTrigger_EXECUTOR, evt: "EARLIER"}
+			r.mu.Unlock()
+			rep, perr := cl.OccClient.Transition(context.Background(), &pb.TransitionRequest{TransitionEvent: "EARLIER", SrcState: d.state})
+			if perr != nil || rep.GetState() != d.state || !rep.GetOk() {
+				rigs <- r
+				return "", false, fmt.Errorf("json wiring: the earlier full reply did not come through: %v %v", rep, perr)
+			}
+		}
+		r.mu.Lock()
+		r.dev, r.canned = d, nil
+		r.mu.Unlock()
 		// exactly what ControllableTask.Transition does: cmd.Commit() on the client's transitioner
 		cmd := executorcmd.NewLocalExecutorCommand_Transition(cl.Transitioner, "", nil, c.src, c.evt, c.dst, nil)
 		cmd.Arguments = controlcommands.PropertyMap(commitArgs)
@@ -414,7 +491,7 @@ func runImpl(input string) (string, error) {
 // ---- exhaustive enumeration ---------------------------------------------------------------------------
 
 // scriptsFor enumerates every script the REAL code can consume for one cell: depth-first, a script is
-// extended by each of the five outcomes exactly when the implementation asked the device for one more
+// extended by each of the six outcomes exactly when the implementation asked the device for one more
 // request than the script had. Every sequence over the outcome alphabet has exactly one enumerated prefix
 // with the same behaviour, so the enumeration is complete for the cell.
 func scriptsFor(c caseIn) ([][]string, error) {
@@ -460,7 +537,16 @@ func tagsOf(c caseIn) []string {
 	if has["errorState"] {
 		t = append(t, "has-error-state")
 	}
-	if len(c.script) > 0 && !has["reqLost"] && !has["replyLost"] && !has["refused"] && !has["errorState"] {
+	if has["errorNoState"] {
+		t = append(t, "has-stateless-reply")
+		for i, o := range c.script {
+			if o == "errorNoState" && i > 0 && c.script[i-1] == "done" {
+				t = append(t, "stateless-reply-after-full-reply")
+				break
+			}
+		}
+	}
+	if len(c.script) > 0 && !has["reqLost"] && !has["replyLost"] && !has["refused"] && !has["errorState"] && !has["errorNoState"] {
 		t = append(t, "all-done")
 	}
 	return t
@@ -483,7 +569,7 @@ func generate(tier string, _ *rng.R) []fw.Case {
 						cs = append(cs, fw.Case{Input: "(enumeration-failed " + sx.A(err.Error()).String() + ")", Tags: []string{"enumeration-failed"}})
 						continue
 					}
-					for _, wiring := range []string{"fn", "rpc"} {
+					for _, wiring := range []string{"fn", "rpc", "json"} {
 						for _, s := range scripts {
 							c.wiring, c.script = wiring+fixedSuffix, s
 							cs = append(cs, fw.Case{Input: c.String(), Tags: tagsOf(c)})
@@ -528,6 +614,11 @@ func shrinkCands(input string) []string {
 		c2.script = c.script[:n-1]
 		out = append(out, c2.String())
 	}
+	if strings.HasPrefix(c.wiring, "json") {
+		c2 := c
+		c2.wiring = "rpc" + strings.TrimPrefix(c.wiring, "json")
+		out = append(out, c2.String())
+	}
 	if strings.HasPrefix(c.wiring, "rpc") {
 		c2 := c
 		c2.wiring = "fn" + strings.TrimPrefix(c.wiring, "rpc")
@@ -542,8 +633,8 @@ func init() {
 		Generate:   generate,
 		RunImpl:    runImpl,
 		Nontrivial: nontrivial,
-		Rule: "EXHAUSTIVE: every (wiring fn|rpc, control mode FAIRMQ|DIRECT, device flavour lenient|strict, O² event (7), source state (5), " +
-			"outcome script) where the scripts of a cell are enumerated depth-first over {done, refused, errorState, reqLost, replyLost} for exactly " +
+		Rule: "EXHAUSTIVE: every (wiring fn|rpc|json = scripted DoTransitionFunc | real client over the protobuf transport | real client over the JSON transport (real nopb client and codec, after one earlier full reply), control mode FAIRMQ|DIRECT, device flavour lenient|strict, O² event (7), source state (5), " +
+			"outcome script) where the scripts of a cell are enumerated depth-first over {done, refused, errorState, reqLost, replyLost, errorNoState (= reply without a state)} for exactly " +
 			"the requests the real Commit issues; plus all 24 reply shapes (ok × trigger × event echo × state=dst) through the real client.doTransition; " +
 			"non-trivial = at least one request reached the device (the FAIRMQ GO_ERROR/RECOVER rows issue none); distinct by input text",
 		Shrink:     shrinkCands,
@@ -554,6 +645,7 @@ func init() {
 			"harness/props/c16: scripted device (FairMQ device graph written in Go and in Model/FairMQ.lean fmqNext — not in the repository; " +
 				"OCC-library graph transcribed from occ/occlib/OccServer.cxx), fake OCC gRPC server, depth-first script enumeration",
 			"grpc-go loopback transport between the real executorcmd.NewClient and the fake OCC server (rpc wiring)",
+			"json wiring: the gRPC hop of the JSON client is replaced by a client interceptor that applies the real nopb.JsonCodec to request and reply (the client object is the real nopb.NewOccClient, placed in the RpcClient that NewClient(…, JsonTransport) returned)",
 		},
 		Assumptions: []string{
 			"the device is in the image of the source state the transition request names when Commit starts",
